@@ -60,6 +60,16 @@ def gen_cases(tier, seed):
                 gradient_steps=2 if (r % 2 and algo in ("ddpg", "td3", "td3_lap"))
                 else int(rng.choice([1, 1, 2])),
                 total=int(rng.integers(80, 130)), cost=3 * COST.get(algo, 3)))
+            # every second run hands over target networks that differ from the
+            # online ones, so that a copy at any moment is visible
+            cases[-1]["distinct_targets"] = bool(r % 2 == 0)
+        if algo in ("nature_dqn", "ddqn", "per"):
+            # no warm-up: learning (and target syncs) wait for a full batch only
+            cases.append(dict(
+                kind="loop", algo=algo, seed=int(rng.integers(1 << 20)),
+                resume=False, delay=int(rng.choice([1, 2])), tau=1.0,
+                gradient_steps=1, total=int(rng.integers(40, 70)), ls=0,
+                distinct_targets=True, cost=3 * COST.get(algo, 3)))
     for i in range(2 * k):
         # TD7's checkpoint copies: change only by the flagged copies
         cases.append(dict(kind="td7_checkpoint", idx=i,
@@ -262,7 +272,7 @@ def run_loop(case):
 
     algo = case["algo"]
     d, tau = case["delay"], case["tau"]
-    ls = 11  # not a multiple of any delay used below
+    ls = case.get("ls", 11)  # 11: not a multiple of any delay used below
     # continued runs: the cadence is a function of the absolute step count
     G = int(np.random.default_rng(case["seed"]).choice([7, 13])) \
         if case.get("resume") else 0
@@ -273,7 +283,7 @@ def run_loop(case):
                policy_delay=d, target_network_delay=d, target_delay=d + 1,
                gradient_steps=case["gradient_steps"], use_checkpoints=False,
                logger=True, snap_on_log=True, low=[-1.0, 0.0], high=[1.0, 2.0],
-               lr=3e-2)
+               lr=3e-2, distinct_targets=bool(case.get("distinct_targets")))
     run = make_run(algo, cfg)
     tr = run.trace
     mod = importlib.import_module(run.patch_modules[0])
